@@ -5,6 +5,7 @@ package internal
 import (
 	"context"
 	"sync"
+	"time"
 
 	"github.com/ThreeDotsLabs/watermill/zzverif/vrt"
 )
@@ -161,5 +162,55 @@ func HarnessSchedBuffered() {
 		vrt.Reach("fifo")
 	} else {
 		vrt.Reach("broken")
+	}
+}
+
+// Timed semantics (run with --timed; without it both orders of the two sleepers and both select branches are
+// reachable): computation takes no time, timers fire exactly when due, the earliest first.
+func HarnessSchedTimed() {
+	t0 := time.Now()
+	var mu sync.Mutex
+	var order []int
+	done := make(chan struct{}, 2)
+	go func() {
+		time.Sleep(20 * time.Millisecond)
+		mu.Lock()
+		order = append(order, 2)
+		mu.Unlock()
+		done <- struct{}{}
+	}()
+	go func() {
+		time.Sleep(10 * time.Millisecond)
+		mu.Lock()
+		order = append(order, 1)
+		mu.Unlock()
+		done <- struct{}{}
+	}()
+	<-done
+	<-done
+	if order[0] == 1 {
+		vrt.Reach("short-sleeper-first")
+	} else {
+		vrt.Reach("long-sleeper-first")
+	}
+	ctx, cancel := context.WithTimeout(context.Background(), 50*time.Millisecond)
+	defer cancel()
+	select {
+	case <-ctx.Done():
+		vrt.Reach("deadline-first")
+	case <-time.After(2 * time.Second):
+		vrt.Reach("after-first")
+	}
+	if time.Since(t0) == 70*time.Millisecond {
+		vrt.Reach("elapsed-70ms")
+	} else {
+		vrt.Reach("elapsed-other")
+	}
+	tm := time.After(time.Hour)
+	select {
+	case <-tm:
+		vrt.Reach("hour-timer-ready-at-once")
+	default:
+		vrt.Reach("hour-timer-not-yet")
 	}
 }
